@@ -4,6 +4,7 @@ import (
 	"sync"
 
 	"github.com/evanw/esbuild/internal/fs"
+	"github.com/evanw/esbuild/internal/verif"
 )
 
 // This cache uses information from the "stat" syscall to try to avoid re-
@@ -33,6 +34,7 @@ func (c *FSCache) ReadFile(fs fs.FS, path string) (contents string, canonicalErr
 	// the contents of the file are also the same and skip reading the file.
 	modKey, modKeyErr := fs.ModKey(path)
 	if entry != nil && entry.isModKeyUsable && modKeyErr == nil && entry.modKey == modKey {
+		verif.Event("cache.fs", "path", path, "hit", true, "src", entry.contents)
 		return entry.contents, nil, nil
 	}
 
@@ -41,6 +43,7 @@ func (c *FSCache) ReadFile(fs fs.FS, path string) (contents string, canonicalErr
 		return "", err, originalError
 	}
 
+	verif.Event("cache.fs", "path", path, "hit", false, "src", contents)
 	c.mutex.Lock()
 	defer c.mutex.Unlock()
 	c.entries[path] = &fsEntry{
